@@ -136,6 +136,15 @@ def prepare_env(env):
     env.fixed.update({"L": 3.0, "starts.shape0": 3.0, "Q.shape1": 2.0, "Q.shape0": 3.0})
 
 
+def prepare_env_chunks(env):
+    """numeric cross-check environment for the multi-chunk variant: 5 segments in chunks of 2 (2+2+1)."""
+    env.fixed.update({"L": 3.0, "starts.shape0": 5.0, "Q.shape1": 2.0, "Q.shape0": 3.0})
+
+
+def has_chunk_param(node):
+    return any(a.arg == "_chunk" for a in node.args.kwonlyargs)
+
+
 class KernelEval:
     def __init__(s, repo):
         setup_kinds()
@@ -143,15 +152,15 @@ class KernelEval:
         s.I = Interp(repo)
         s.cache = {}
 
-    def evaluate(s, fam, mode, backend, chans=("x1", "x2")):
+    def evaluate(s, fam, mode, backend, chans=("x1", "x2"), chunk=None):
         key = kernel_key(fam, mode, backend)
-        ck = (key, chans)
+        ck = (key, chans, chunk)
         if ck in s.cache: return s.cache[ck]
         if not s.repo.has(key):
             raise AnalysisError(f"kernel {key} not found")
         st = St()
         try:
-            r = s.I.call_key(key, kernel_args(fam, mode, chans), {}, st)
+            r = s.I.call_key(key, kernel_args(fam, mode, chans), {} if chunk is None else {"_chunk": X.const(chunk)}, st)
         except Unknown as ex:
             r = Opaque(f"interpreter: {ex}")
         s.cache[ck] = (r, st)
@@ -197,6 +206,11 @@ def check_kernel(ctx, KE, fam, mode, backend, outputs=OUT, rule="R3-statistics")
     worst = HOLDS
     # the detrend basis comes from _build_Q(L, order), order in {1,2}: it has 2 or 3 columns
     variants = [(None, val0, ref0)]
+    chunked = None
+    if has_chunk_param(node):
+        # the NumPy kernels process the segments in chunks of _chunk: re-evaluate with a chunk size of 2 so that the
+        # multi-chunk behaviour (K > _chunk, out of reach of any test) is compared with the definition as well
+        chunked, _ = KE.evaluate(fam, mode, backend, chunk=2)
     if fam == "poly" and _has_p1_cond(val0):
         variants = []
         for p1 in (2, 3):
@@ -226,6 +240,22 @@ def check_kernel(ctx, KE, fam, mode, backend, outputs=OUT, rule="R3-statistics")
             if stt != HOLDS:
                 status = stt; detail = f"{name} for K={k} segments" + (f" and a {p1}-column basis" if p1 else "") + " differs from the windowed-DFT definition" + (f" ({why})" if why else "")
                 lhs, rhs = gx, want; break
+        if status != VIOLATED and chunked is not None:
+            k = kmax
+            for p1 in ((2, 3) if fam == "poly" and _has_p1_cond(chunked) else (None,)):
+                mp = {"Q.shape1": X.const(p1)} if p1 else {}
+                leaf, und = leaf_for_K(subst_val(chunked, mp) if mp else chunked, k)
+                got = leaf[oi] if isinstance(leaf, tuple) and len(leaf) == 5 and not und else (leaf if is_opaque(leaf) else Opaque(f"multi-chunk variant not recognised: {leaf!r}"[:200]))
+                if is_opaque(got) or to_x(got) is None:
+                    st2 = VIOLATED if isinstance(got, Mismatch) else UNKNOWN
+                    if status == HOLDS or st2 == VIOLATED: status = st2; detail = f"chunks of 2: {getattr(got, 'why', got)!r}"[:300]
+                    break
+                want = ref0[regime_of(k)][oi]
+                if mp: want = want.subst(mp)
+                stt, why = compare(to_x(got), want, prepare=prepare_env_chunks, seed=ctx.seed)
+                if stt == VIOLATED or (stt != HOLDS and status == HOLDS):
+                    status = stt; detail = f"{name} with the segments processed in several chunks (_chunk=2, K=5) differs from the windowed-DFT definition" + (f" ({why})" if why else "")
+                    lhs, rhs = to_x(got), want; break
         ctx.ob(f"{rule}[{name}]", key, status, detail, where, lhs=lhs, rhs=rhs)
         if status != HOLDS: worst = status
     return worst
